@@ -28,7 +28,7 @@ def depth_coord(name, dim, K, down, deepfirst, attr, bounds, same_name_dim=False
             "bounds": [[v - 2, v + 3] for v in vals] if bounds else []}
 
 
-def make_world(conv: str, rng: random.Random, *, two: bool, K: int) -> dict:
+def make_world(conv: str, rng: random.Random, *, two: bool, K: int, twin: bool = False) -> dict:
     if conv == "ugrid":
         w = GW.mesh_world(W.mesh_from_squares([["Q", "A"], ["B", "N"]]), enc={"base": 0, "fill": "intfill"})
     elif conv == "cf1d":
@@ -40,6 +40,13 @@ def make_world(conv: str, rng: random.Random, *, two: bool, K: int) -> dict:
     for k, (name, dim) in enumerate(names[: (2 if two else 1)]):
         depths.append(depth_coord(name, dim, K + k, rng.random() < .5, rng.random() < .5, rng.random() < .7,
                                   rng.random() < .5, same_name_dim=(conv not in DEPTH_NAMES and rng.random() < .5)))
+    if twin and conv not in DEPTH_NAMES:
+        # a second depth coordinate on the SAME dimension describing the same levels with the opposite sign convention
+        # (e.g. `depth` positive down next to `z` positive up)
+        d0 = depths[0]
+        down0 = (d0["positive"] == "down") if d0["positive"] else (sum(1 for v in d0["vals"] if v > 0) * 2 > len(d0["vals"]))
+        depths.append({"name": "z_twin", "dim": d0["dim"], "vals": [-v for v in d0["vals"]],
+                       "positive": "up" if down0 else "down", "bounds": []})
     tname = "time" if conv == "shoc_simple" else "t"
     w["extras"] = [{"name": "t", "size": 2, "coord": {"name": tname, "kind": "time", "values": [0, 6]}}]
     g = ["@0", "@1"] if len(W.kind_shape(w, "face")) == 2 else ["@0"]
@@ -235,6 +242,16 @@ def cases(tier: str, seed: int, *, kinds=("norm", "floor")) -> list[dict]:
                 ev.append({"a": "OceanFloor", "via": "accessor" if rng.random() < .5 else "function"})
             out.append({"src": "gen", "world": w, "events": ev})
     if "norm" in kinds:
+        # two coordinates on one depth dimension, through the accessor and through the function
+        for conv in [c for c in W.ALL_CONVS if c not in DEPTH_NAMES]:
+            for rep in range(1 if tier == "quick" else 4):
+                w = make_world(conv, rng, two=False, K=rng.randint(2, 4), twin=True)
+                combos = list(itertools.product(opts, opts))
+                rng.shuffle(combos)
+                ev = []
+                for pd, d2s in combos[: (4 if tier == "quick" else 9)]:
+                    ev.append({"a": "Normalize", "pd": pd, "d2s": d2s, "via": "accessor" if len(ev) % 2 == 0 else "function"})
+                out.append({"src": "gen", "world": w, "events": ev})
         # all nine combinations on one fixed coordinate per orientation
         for down, deepfirst, attr in itertools.product((True, False), (True, False), (True, False)):
             for pd, d2s in itertools.product(opts, opts):
